@@ -51,6 +51,10 @@ def rterm(t):
         return "$%02X" % n
     if sp == "hex4":
         return "$%04X" % n
+    if sp == "hex3":
+        return "$%03X" % n
+    if sp == "dec0":
+        return "%04d" % n                      # leading zeros on a decimal constant
     if sp == "bin8":
         return "%" + format(n, "08b")
     if sp == "bin16":
